@@ -22,6 +22,7 @@ import (
 	"encoding/base64"
 	"encoding/json"
 	"fmt"
+	"math/bits"
 	"reflect"
 	"sort"
 	"strconv"
@@ -203,6 +204,17 @@ func twinEnv(e *env) *env {
 // avoidSwitches are the generator switches that open findings may name: a decoded value that
 // contains the trap is excluded from the battery while the finding is open.
 var avoidSwitches = []string{"null_in_map", "null_in_list", "unknown_native", "nobject_shell"}
+
+// stillRun lists, per avoid switch, the Go operations that are still run on an excluded value.
+var nilTolerant = map[string]bool{"go:ToString": true, "go:ToRepr": true, "go:ToJSON": true, "go:ValueEqual(v,v)": true, "go:ValueEqual(v,second-decode)": true}
+var stillRun = map[string]map[string]bool{
+	"null_in_map":    nilTolerant,
+	"null_in_list":   nilTolerant,
+	"unknown_native": {},
+	"nobject_shell": {"go:ToString": true, "go:ToRepr": true, "go:AsBool": true, "go:GetTypeName": true, "go:Clone": true, "go:ValueEqual(v,v)": true,
+		"go:ValueEqual(v,clone)": true, "go:ValueEqual(v,second-decode)": true, "go:ValueEqual(v,number)": true, "go:AsDictKey": true, "go:ToJSON": true,
+		"go:ToJSON-decode-again": true, "go:store-in-dict-ToJSON": true, "go:map-ToJSON": true},
+}
 
 // scan reports the structural traps present in a decoded value (used to honour the avoid
 // switches of open findings and for the class histogram).
@@ -688,15 +700,36 @@ func checkCase(c Case, s *rt.Section, o opts) (*rt.Failure, *stats) {
 	}
 	st.decoded = true
 	st.traps = scanEnv(e)
+	// An open finding excludes the decoded values that carry its trap from the battery, except for
+	// the Go operations that are safe on such a value today (nil elements are tolerated by the
+	// printer, the encoder and the comparison by design; an object shell is inert at the Go level):
+	// those stay under test so that the tolerance itself cannot rot unnoticed.
+	var onlyGo map[string]bool
 	if avoid != nil {
 		for _, sw := range avoidSwitches {
 			if st.traps[sw] && avoid(sw) {
-				st.skipped = sw
-				return nil, st
+				if st.skipped == "" {
+					st.skipped = sw
+				}
+				allowed := stillRun[sw]
+				if onlyGo == nil {
+					onlyGo = map[string]bool{}
+					for k := range allowed {
+						onlyGo[k] = true
+					}
+				} else {
+					for k := range onlyGo {
+						if !allowed[k] {
+							delete(onlyGo, k)
+						}
+					}
+				}
 			}
 		}
 	}
-	st.nontrivial = !encoderWouldProduce(doc, e)
+	if st.skipped == "" {
+		st.nontrivial = !encoderWouldProduce(doc, e)
+	}
 
 	fresh := func() *env {
 		f, err, perr := decode(doc, mode)
@@ -733,6 +766,9 @@ func checkCase(c Case, s *rt.Section, o opts) (*rt.Failure, *stats) {
 			if len(c.Go) > 0 && !contains(c.Go, op.name) {
 				continue
 			}
+			if st.skipped != "" && !onlyGo[op.name] {
+				continue
+			}
 			f := fresh()
 			if f == nil {
 				return s.NewFailure("decode-deterministic", "decode:unstable", c, "a second decode of the same document failed", "the same outcome"), st
@@ -748,6 +784,9 @@ func checkCase(c Case, s *rt.Section, o opts) (*rt.Failure, *stats) {
 				}
 			}
 		}
+	}
+	if st.skipped != "" {
+		return nil, st
 	}
 	if o.scriptsIf != nil && len(c.Scripts) > 0 && !o.scriptsIf(fingerprint(e)) {
 		st.scriptsSkipped = true
@@ -854,8 +893,29 @@ type gen struct {
 	wf bool // well-formed documents only (base material of the byte mutator)
 }
 
-func (g *gen) pick(label string, xs ...string) string { return rapid.SampledFrom(xs).Draw(g.t, label) }
-func (g *gen) chance(label string, pct int) bool      { return rapid.IntRange(0, 99).Draw(g.t, label) < pct }
+// uni draws an integer uniformly from [0, n).  rapid's own integer and SampledFrom generators are
+// deliberately biased towards small values (half of the IntRange(0,99) draws use fewer than 7
+// bits), which would turn every "5 % of the nodes" below into something much larger; single
+// bits are uniform, and they still shrink towards 0, i.e. towards the first alternative.
+func uni(t *rapid.T, label string, n int) int {
+	if n <= 1 {
+		return 0
+	}
+	k := bits.Len(uint(n-1)) + 3
+	v := 0
+	for i := 0; i < k; i++ {
+		if rapid.Bool().Draw(t, label) {
+			v |= 1 << i
+		}
+	}
+	return v % n
+}
+
+func uniStr(t *rapid.T, label string, xs []string) string { return xs[uni(t, label, len(xs))] }
+func uniInt(t *rapid.T, label string, xs []int) int       { return xs[uni(t, label, len(xs))] }
+
+func (g *gen) pick(label string, xs ...string) string { return uniStr(g.t, label, xs) }
+func (g *gen) chance(label string, pct int) bool      { return uni(g.t, label, 100) < pct }
 
 func q(s string) string { b, _ := json.Marshal(s); return string(b) }
 
@@ -882,7 +942,7 @@ func (g *gen) expr(level int) string {
 	if g.wf {
 		pool = pool[:24]
 	}
-	return rapid.SampledFrom(pool).Draw(g.t, "expr")
+	return uniStr(g.t, "expr", pool)
 }
 
 var knownNatives = []string{"ceil", "floor", "round", "abs", "toInt", "toFloat", "toStr", "toBool", "repr", "load", "loadRaw", "store", "dir", "typeId"}
@@ -893,11 +953,11 @@ func (g *gen) child(depth, level int) string {
 	if g.wf {
 		return g.value(depth, level)
 	}
-	r := rapid.IntRange(0, 99).Draw(g.t, "child")
+	r := uni(g.t, "child", 100)
 	switch {
 	case r < 6:
 		return "null"
-	case r < 11:
+	case r < 8:
 		return g.pick("junk", "5", `"s"`, "[]", "true", "{}", "1.5", `[{"t":0,"v":1}]`)
 	}
 	return g.value(depth, level)
@@ -909,7 +969,7 @@ func (g *gen) key(level int) string {
 }
 
 func (g *gen) mapBody(depth, level int, maxN int) string {
-	n := rapid.IntRange(0, maxN).Draw(g.t, "nkeys")
+	n := uni(g.t, "nkeys", maxN+1)
 	var parts []string
 	for i := 0; i < n; i++ {
 		parts = append(parts, q(g.key(level))+":"+g.child(depth-1, level))
@@ -918,7 +978,7 @@ func (g *gen) mapBody(depth, level int, maxN int) string {
 }
 
 func (g *gen) listBody(depth, level int) string {
-	n := rapid.IntRange(0, 3).Draw(g.t, "nlist")
+	n := uni(g.t, "nlist", 4)
 	var parts []string
 	for i := 0; i < n; i++ {
 		parts = append(parts, g.child(depth-1, level))
@@ -976,13 +1036,13 @@ var properTags = []int{0, 1, 2, 4, 5, 6, 7, 8, 9, 10}
 func (g *gen) value(depth, level int) string {
 	var tags []int
 	if depth >= 3 {
-		tags = []int{0, 2, 5, 5, 6, 6, 6, 7, 7, 7, 8, 9, 10, 5, 8}
+		tags = []int{0, 1, 2, 4, 5, 5, 6, 6, 6, 7, 7, 7, 8, 9, 10, 5, 8}
 	} else if depth > 0 {
 		tags = []int{0, 1, 2, 4, 5, 6, 6, 7, 7, 8, 9, 10, 5}
 	} else {
 		tags = []int{0, 1, 2, 4, 5, 8, 9, 10, 6, 7}
 	}
-	tag := rapid.SampledFrom(tags).Draw(g.t, "tag")
+	tag := uniInt(g.t, "tag", tags)
 	if g.wf {
 		if tag == 10 {
 			tag = 9
@@ -996,25 +1056,25 @@ func (g *gen) value(depth, level int) string {
 	tagText := strconv.Itoa(tag)
 	payloadTag := tag
 	// malformations (each with a small probability; most documents carry at most one)
-	mal := rapid.IntRange(0, 99).Draw(g.t, "mal")
+	mal := uni(g.t, "mal", 100)
 	switch {
-	case mal < 6: // unknown / internal / negative tags, proper payload of some other tag
+	case mal < 7: // unknown / internal / negative tags, proper payload of some other tag
 		tagText = g.pick("oddtag", "3", "11", "20", "21", "-1", "99", "1000000", "12")
-		payloadTag = rapid.SampledFrom(properTags).Draw(g.t, "ptag")
-	case mal < 10: // tag of the wrong JSON type or missing
+		payloadTag = uniInt(g.t, "ptag", properTags)
+	case mal < 9: // tag of the wrong JSON type or missing
 		tagText = g.pick("badtag", "null", `"6"`, "6.0", "1e0", "true", "[]", "{}", "", "0.5", "99999999999999999999")
-	case mal < 18: // payload of another tag
-		payloadTag = rapid.SampledFrom(properTags).Draw(g.t, "ptag")
+	case mal < 12: // payload of another tag
+		payloadTag = uniInt(g.t, "ptag", properTags)
 	}
 	var v string
 	hasV := true
-	pm := rapid.IntRange(0, 99).Draw(g.t, "pmal")
+	pm := uni(g.t, "pmal", 100)
 	switch {
-	case pm < 5:
+	case pm < 4:
 		hasV = false
-	case pm < 10:
+	case pm < 8:
 		v = "null"
-	case pm < 16:
+	case pm < 11:
 		v = g.pick("wrongv", "0", "1.5", `"s"`, "[]", "{}", "true", `[1]`, `{"list":null}`, `{"list":{}}`, `{"list":5}`, `{"list":[5]}`, `{"list":"s"}`,
 			`{"dict":null}`, `{"dict":[]}`, `{"dict":5}`, `{"dict":{"a":5}}`, `{"dict":{"a":[]}}`, `{"expr":5}`, `{"expr":null}`, `{"expr":["1"]}`,
 			`{"expr":"1","attrs":null}`, `{"expr":"1","attrs":[]}`, `{"expr":"1","attrs":5}`, `{"expr":"1","attrs":{"a":5}}`,
@@ -1030,7 +1090,7 @@ func (g *gen) value(depth, level int) string {
 		}
 	}
 	tk, vk := `"t"`, `"v"`
-	if g.chance("keycase", 4) {
+	if g.chance("keycase", 6) {
 		tk, vk = `"T"`, `"V"`
 		v = strings.NewReplacer(`"list"`, `"LIST"`, `"dict"`, `"Dict"`, `"expr"`, `"EXPR"`, `"name"`, `"Name"`, `"params"`, `"PARAMS"`, `"attrs"`, `"Attrs"`).Replace(v)
 	}
@@ -1041,15 +1101,15 @@ func (g *gen) value(depth, level int) string {
 	if hasV {
 		fields = append(fields, vk+":"+v)
 	}
-	ex := rapid.IntRange(0, 99).Draw(g.t, "extra")
+	ex := uni(g.t, "extra", 100)
 	switch {
-	case ex < 4:
-		fields = append(fields, `"x":1`)
-	case ex < 7 && len(fields) == 2: // v before t
+	case ex < 8:
+		fields = append(fields, g.pick("xfield", `"x":1`, `"extra":null`, `"list":[null]`, `"name":"nope"`))
+	case ex < 11 && len(fields) == 2: // v before t
 		fields[0], fields[1] = fields[1], fields[0]
-	case ex < 10: // duplicate keys: the last one wins
+	case ex < 13: // duplicate keys: the last one wins
 		fields = append(fields, `"t":`+g.pick("dupt", "0", "6", "7", "9", "4", "5"))
-	case ex < 12:
+	case ex < 15:
 		fields = append([]string{`"v":` + g.pick("dupv", "null", "1", `{"list":[null]}`, `{"name":"nope"}`, `{}`)}, fields...)
 	}
 	return "{" + strings.Join(fields, ",") + "}"
@@ -1086,7 +1146,7 @@ func (g *gen) top(depth int) (string, string) {
 func pickScripts(t *rapid.T, k int) []string {
 	var out []string
 	for i := 0; i < k; i++ {
-		out = append(out, battery[rapid.IntRange(0, len(battery)-1).Draw(t, "script")])
+		out = append(out, battery[uni(t, "script", len(battery))])
 	}
 	return out
 }
@@ -1158,34 +1218,34 @@ var mutTokens = []string{"null", "true", "0", "-1", "1.5", `""`, "[]", "{}", `{"
 const structural = `{}[]",:0123456789.-+eE \tnul`
 
 func mutate(t *rapid.T, doc []byte) ([]byte, string) {
-	n := rapid.SampledFrom([]int{1, 1, 1, 2, 2, 3}).Draw(t, "nmut")
+	n := uniInt(t, "nmut", []int{1, 1, 1, 2, 2, 3})
 	kinds := ""
 	for i := 0; i < n; i++ {
 		if len(doc) == 0 {
 			break
 		}
-		kind := rapid.SampledFrom([]string{"del", "rep", "ins", "trunc", "tagdigit", "tagdigit", "tagdigit", "nullify", "nullify", "nullify",
-			"keycase", "keycase", "digit", "digit", "field", "field", "field", "unquote", "unquote"}).Draw(t, "mkind")
+		kind := uniStr(t, "mkind", []string{"del", "rep", "ins", "trunc", "tagdigit", "tagdigit", "tagdigit", "nullify", "nullify", "nullify",
+			"keycase", "keycase", "digit", "digit", "field", "field", "field", "unquote", "unquote"})
 		kinds += kind + " "
 		switch kind {
 		case "del":
-			p := rapid.IntRange(0, len(doc)-1).Draw(t, "pos")
-			l := rapid.IntRange(1, 8).Draw(t, "len")
+			p := uni(t, "pos", len(doc))
+			l := 1 + uni(t, "len", 8)
 			if p+l > len(doc) {
 				l = len(doc) - p
 			}
 			doc = append(append([]byte(nil), doc[:p]...), doc[p+l:]...)
 		case "rep":
-			p := rapid.IntRange(0, len(doc)-1).Draw(t, "pos")
-			ch := structural[rapid.IntRange(0, len(structural)-1).Draw(t, "ch")]
+			p := uni(t, "pos", len(doc))
+			ch := structural[uni(t, "ch", len(structural))]
 			doc = append([]byte(nil), doc...)
 			doc[p] = ch
 		case "ins":
-			p := rapid.IntRange(0, len(doc)).Draw(t, "pos")
-			tok := rapid.SampledFrom(mutTokens).Draw(t, "tok")
+			p := uni(t, "pos", len(doc)+1)
+			tok := uniStr(t, "tok", mutTokens)
 			doc = append(append(append([]byte(nil), doc[:p]...), tok...), doc[p:]...)
 		case "trunc":
-			p := rapid.IntRange(0, len(doc)-1).Draw(t, "pos")
+			p := uni(t, "pos", len(doc))
 			doc = append([]byte(nil), doc[:p]...)
 		case "keycase":
 			// Go's decoder matches field names case-insensitively: flip the case of one letter of a key
@@ -1193,7 +1253,7 @@ func mutate(t *rapid.T, doc []byte) ([]byte, string) {
 			if len(idx) == 0 {
 				continue
 			}
-			p := idx[rapid.IntRange(0, len(idx)-1).Draw(t, "which")] - 1
+			p := idx[uni(t, "which", len(idx))] - 1
 			if p >= 0 && doc[p] >= 'a' && doc[p] <= 'z' {
 				doc = append([]byte(nil), doc...)
 				doc[p] -= 32
@@ -1208,18 +1268,18 @@ func mutate(t *rapid.T, doc []byte) ([]byte, string) {
 			if len(idx) == 0 {
 				continue
 			}
-			p := idx[rapid.IntRange(0, len(idx)-1).Draw(t, "which")]
+			p := idx[uni(t, "which", len(idx))]
 			doc = append([]byte(nil), doc...)
-			doc[p] = "0123456789-.e"[rapid.IntRange(0, 12).Draw(t, "d")]
+			doc[p] = "0123456789-.e"[uni(t, "d", 13)]
 		case "field":
 			// add a field right after some '{' (duplicates of t / v included: the last one wins)
 			idx := allIndex(doc, `{`)
 			if len(idx) == 0 {
 				continue
 			}
-			p := idx[rapid.IntRange(0, len(idx)-1).Draw(t, "which")] + 1
-			f := rapid.SampledFrom([]string{`"v":null`, `"t":4`, `"t":9`, `"t":10`, `"t":6`, `"t":3`, `"v":{"list":[null]}`, `"v":{"name":"nope"}`, `"x":1`, `"list":null`, `"dict":null`,
-				`"attrs":null`, `"attrs":{"g":null}`, `"params":null`, `"params":[null]`, `"name":"nope"`, `"expr":"1 +"`, `"g":null`, `"__proto__":null`}).Draw(t, "f")
+			p := idx[uni(t, "which", len(idx))] + 1
+			f := uniStr(t, "f", []string{`"v":null`, `"t":4`, `"t":9`, `"t":10`, `"t":6`, `"t":3`, `"v":{"list":[null]}`, `"v":{"name":"nope"}`, `"x":1`, `"list":null`, `"dict":null`,
+				`"attrs":null`, `"attrs":{"g":null}`, `"params":null`, `"params":[null]`, `"name":"nope"`, `"expr":"1 +"`, `"g":null`, `"__proto__":null`})
 			if p < len(doc) && doc[p] != '}' {
 				f += ","
 			}
@@ -1230,7 +1290,7 @@ func mutate(t *rapid.T, doc []byte) ([]byte, string) {
 			if len(idx) == 0 {
 				continue
 			}
-			p := idx[rapid.IntRange(0, len(idx)-1).Draw(t, "which")] + 1
+			p := idx[uni(t, "which", len(idx))] + 1
 			e := p + 1
 			for e < len(doc) && doc[e] != '"' {
 				if doc[e] == '\\' {
@@ -1241,7 +1301,7 @@ func mutate(t *rapid.T, doc []byte) ([]byte, string) {
 			if e >= len(doc) {
 				continue
 			}
-			tok := rapid.SampledFrom([]string{"null", "0", "[]", "{}", `["ceil"]`, "true"}).Draw(t, "tok")
+			tok := uniStr(t, "tok", []string{"null", "0", "[]", "{}", `["ceil"]`, "true"})
 			doc = append(append(append([]byte(nil), doc[:p]...), tok...), doc[e+1:]...)
 		case "tagdigit":
 			// change the number after some "t":
@@ -1249,12 +1309,12 @@ func mutate(t *rapid.T, doc []byte) ([]byte, string) {
 			if len(idx) == 0 {
 				continue
 			}
-			p := idx[rapid.IntRange(0, len(idx)-1).Draw(t, "which")] + 4
+			p := idx[uni(t, "which", len(idx))] + 4
 			e := p
 			for e < len(doc) && (doc[e] == '-' || (doc[e] >= '0' && doc[e] <= '9')) {
 				e++
 			}
-			nt := rapid.SampledFrom([]string{"0", "1", "2", "3", "4", "5", "6", "7", "8", "9", "10", "11", "20", "21", "-1"}).Draw(t, "newtag")
+			nt := uniStr(t, "newtag", []string{"0", "1", "2", "3", "4", "5", "6", "7", "8", "9", "10", "11", "20", "21", "-1"})
 			doc = append(append(append([]byte(nil), doc[:p]...), nt...), doc[e:]...)
 		case "nullify":
 			// replace one whole element {"t":...} by null or by another token
@@ -1262,12 +1322,12 @@ func mutate(t *rapid.T, doc []byte) ([]byte, string) {
 			if len(idx) == 0 {
 				continue
 			}
-			p := idx[rapid.IntRange(0, len(idx)-1).Draw(t, "which")]
+			p := idx[uni(t, "which", len(idx))]
 			e := matchBrace(doc, p)
 			if e < 0 {
 				continue
 			}
-			tok := rapid.SampledFrom([]string{"null", "null", "5", `"s"`, `{"t":3}`, `{"t":9,"v":{"name":"nope"}}`, `{"t":10,"v":{"name":"o"}}`, "{}", "[]"}).Draw(t, "tok")
+			tok := uniStr(t, "tok", []string{"null", "null", "5", `"s"`, `{"t":3}`, `{"t":9,"v":{"name":"nope"}}`, `{"t":10,"v":{"name":"o"}}`, "{}", "[]"})
 			doc = append(append(append([]byte(nil), doc[:p]...), tok...), doc[e+1:]...)
 		}
 	}
@@ -1393,6 +1453,22 @@ func enumDocs(deep bool) []string {
 		`{"t":2,"v":"\ud800"}`, `{"t":6,"v":{"list":[{"t":6,"v":{"list":[{"t":6,"v":{"list":[null]}}]}}]}}`} {
 		add(d)
 	}
+	// deep but narrow nesting (recursion in decoder, printer, comparison, encoder)
+	nest := 60
+	if deep {
+		nest = 250
+	}
+	for _, inner := range []string{`{"t":0,"v":1}`, `null`, `{"t":9,"v":{"name":"nope"}}`} {
+		l, d, c := inner, inner, inner
+		for i := 0; i < nest; i++ {
+			l = `{"t":6,"v":{"list":[` + l + `]}}`
+			d = `{"t":7,"v":{"dict":{"a":` + d + `}}}`
+			c = `{"t":5,"v":{"expr":"g","attrs":{"g":` + c + `}}}`
+		}
+		add(l)
+		add(d)
+		add(c)
+	}
 	if deep {
 		// containers of all depth-1 documents built so far (depth 2)
 		base := append([]string(nil), docs...)
@@ -1423,7 +1499,7 @@ func TestProp(t *testing.T) {
 	defer run.Finish()
 
 	run.Enum("enum",
-		"every document of a bounded shape grammar (20 type tags incl. unknown/internal/negative/ill-typed x 25 payloads; one- and two-element lists, one-key dicts and attrs over 15 leaf documents incl. null, unknown native names and object shells; 10 expression texts x attrs/params variants; all native names; key-case/order/duplicate variants), decoded as a value (bound as x, second decode as y) and as a variable map {x,y}, each followed by the Go battery and the whole script battery; non-trivial = decoding succeeded and re-encoding the decoded value does not give the document back; distinct by (mode, document)",
+		"every document of a bounded shape grammar: 20 type tags (0..10, unknown 3/11/99, internal 20/21, negative, null, string, fraction, missing) x 25 payloads (missing, null, scalars, [], {}, each field name with a proper, null or ill-typed value); one- and two-element lists, one-key dicts (keys a, __proto__, empty) and computed attrs over 15 leaf documents (null, scalars, unknown tag, known/unknown native, object shell, nested list with null, dict, computed, function); 10 expression texts x attrs/params variants; every built-in native name and 11 unknown ones; upper-case keys, reordered, duplicate and trailing fields. Each document is decoded as a value (bound as x, a second decode as y) and as a variable map {x,y}; every decoded document meets the Go battery, every distinct decoded value (compared through all public fields) meets the whole script battery once; non-trivial = decoding succeeded and re-encoding the decoded value does not give the document back; distinct by (mode, document)",
 		func(s *rt.Section) {
 			s.Exhaustive = true
 			deep := run.Env.Thorough()
@@ -1481,13 +1557,13 @@ func TestProp(t *testing.T) {
 			}
 		})
 
-	run.Check("docs", 9000, 150000,
+	run.Check("docs", 9000, 120000,
 		"structure-aware random documents: nesting <= 3 (thorough 5), every public type tag with its proper payload, plus per node a few percent each of unknown/internal/negative/ill-typed tags, payload of another tag, v missing/null/wrong JSON type, ill-typed list/dict/expr/attrs/params/name fields, null or junk elements in lists, dicts, attrs and variable maps, unknown and method-style native names, unparsable expression texts, upper-case keys, reordered/duplicate/extra fields; 65% decoded as one value, 35% as a variable map; Go battery plus 10 scripts drawn from the battery; non-trivial = decoding succeeded and re-encoding does not give the document back; distinct by (mode, document)",
 		func(t *rapid.T, s *rt.Section) {
 			g := &gen{t: t}
 			depth := 3
 			if run.Env.Thorough() {
-				depth = rapid.IntRange(2, 5).Draw(t, "depth")
+				depth = 2 + uni(t, "depth", 4)
 			}
 			doc, mode := g.top(depth)
 			c := newCase([]byte(doc), mode, pickScripts(t, 10))
@@ -1500,13 +1576,13 @@ func TestProp(t *testing.T) {
 			s.Report(t, f)
 		})
 
-	run.Check("mutate", 6000, 120000,
+	run.Check("mutate", 6000, 80000,
 		"byte mutation of encoder output: a well-formed random value tree is decoded and re-encoded with ToJSON (value mode) or ValueMap.ToJSON (map mode), then 1..3 mutations are applied (delete 1..8 bytes, overwrite a byte with a structural character, insert a token such as null/{\"t\":3}/an unknown native/a field name, truncate, rewrite the number after a \"t\":, replace a whole element by null or junk); Go battery plus 8 scripts; non-trivial = the mutated document still decodes and is not what the encoder would write; distinct by (mode, document)",
 		func(t *rapid.T, s *rt.Section) {
 			g := &gen{t: t, wf: true}
 			depth := 2
 			if run.Env.Thorough() {
-				depth = rapid.IntRange(1, 4).Draw(t, "depth")
+				depth = 1 + uni(t, "depth", 4)
 			}
 			base, mode := g.top(depth)
 			// canonical encoder output of the base document
@@ -1542,8 +1618,17 @@ func TestReplay(t *testing.T) {
 		if err := json.Unmarshal(b, &c); err != nil {
 			return s.NewFailure("replay", "replay:bad-case", nil, err.Error(), "")
 		}
-		f, _ := checkCase(c, s, opts{})
-		return f
+		// one attempt decides, except that a dict with several entries is walked in Go's map order:
+		// an order-dependent panic gets a few more chances to show
+		for i := 0; i < 8; i++ {
+			if f, _ := checkCase(c, s, opts{}); f != nil {
+				return f
+			}
+			if !strings.Contains(c.Doc, `"dict"`) && c.Mode != "map" {
+				break
+			}
+		}
+		return nil
 	}
 	rt.Replay(t, "C10", map[string]rt.ReplayFunc{"enum": fn, "docs": fn, "mutate": fn})
 }
